@@ -44,7 +44,7 @@ TIERS = {
     "thorough": {"shards": 32, "cases": 32, "random_scenarios": 250, "timeout": 3400, "parallel": 32},
 }
 FLOORS = {
-    "quick": {"counts": {"scenarios": 180, "statements_with_inner_blank_runs_or_tabs": 30, "writes_checked": 800, "strict_sync_checks": 600,
+    "quick": {"counts": {"statements_with_brackets_or_semicolon": 80, "scenarios": 180, "statements_with_inner_blank_runs_or_tabs": 30, "writes_checked": 800, "strict_sync_checks": 600,
                          "readings_checked": 200, "error_replies": 60, "errors_raised_correctly": 40,
                          "yields_injected": 20000}, "keys": 80, "max_inconclusive_frac": 0.2},
     "thorough": {"counts": {"scenarios": 2500, "writes_checked": 15000}, "keys": 300, "max_inconclusive_frac": 0.2},
@@ -126,7 +126,9 @@ def make_statements(rng, n, blank_ok=False):
         elif r < 0.12:
             # free-form statements: runs of blanks and tabs inside a statement are part of it ("unmodified")
             g.write(rng.choice(["M117 Layer  2/12", "M117 tool   change  now", "G1\tX1.5\tY2", "M118  E1   hello",
-                                "G1  X3 Y4", "M117 a\t\tb"]))
+                                "G1  X3 Y4", "M117 a\t\tb",
+                                # text in brackets / after a semicolon is part of the statement too
+                                "M117 Layer (3/10) done", "G1 X11.5 Y-3 ; outer wall", "M118 (a) b ; c (d)"]))
         elif r < 0.5:
             g.move(x=round(rng.uniform(-50, 50), 3), y=round(rng.uniform(-50, 50), 3), F=1200)
         elif r < 0.7:
@@ -152,6 +154,7 @@ def run_scenario(ctx, col, case, tag, rng, transport, regime, lat, n, errors_at,
     statements = make_statements(rng, n, blank_ok=(transport == "socket"))
     if any(not st.strip() for st in statements):
         col.count("scenarios_with_blank_statements")
+    col.count("statements_with_brackets_or_semicolon", sum(1 for st in statements if b"(" in st or b";" in st))
     col.count("statements_with_inner_blank_runs_or_tabs",
               sum(1 for st in statements if b"  " in st.strip() or b"\t" in st.strip()))
     client = []          # (i, t_call, t_ret, outcome, exception repr, X reading after return)
